@@ -1,4 +1,5 @@
 import OpusProofs.RepackMs
+import OpusProofs.RepackExtRound
 import OpusProofs.ExtZero
 /-
   Property C07 — "Repacketizer, pad and unpad preserve frames and always emit valid packets".
@@ -13,7 +14,7 @@ import OpusProofs.ExtZero
   "Parses back": with `Opus.Framing.parseImpl`, proved in C06 to accept exactly RFC 6716 framing.
 -/
 namespace OpusProps.C07
-open Opus Opus.Framing Opus.FramingSpec Opus.Repack Opus.Ext Opus.RepackProofs
+open Opus Opus.Framing Opus.FramingSpec Opus.Repack Opus.Ext Opus.RepackProofs Opus.ExtProofs
 
 /-- Clause "accepts a packet exactly when it is valid, configuration-compatible and keeps the total
     at or below 120 ms": in every reachable state, for every byte string. -/
@@ -302,6 +303,80 @@ theorem ms_pad_spec (pre : List Packet) (last : Packet) (hv : ∀ p ∈ pre, Val
   rw [h2]
   omega
 
+/-
+  Full statement (P1 `out_roundtrip_ext`), NOT proved — listed in `UNPROVED` of tools/props/C07.py:
+  the theorem below without the hypothesis `NoRepeat` (i.e. also when the generator of
+  src/extensions.c uses its "repeat these extensions" mechanism, ID 2).  It follows from this proof
+  as soon as C16's generate→parse round trip is available without `NoRepeat`.
+-/
+
+/-- Clause "packets carrying extensions are merged / split correctly" (extension carriage, code after
+    fixes 374eedae and ff8edd7a), for extension lists on which the generator repeats nothing.
+    In ANY reachable state (stored paddings arbitrary: extension lists, malformed lists, plain padding),
+    for every valid range, `maxlen`, framing, `pad` flag and caller-supplied valid extensions `exts`:
+    let `all` = `exts` followed by the extensions gathered from the stored packets that overlap
+    `[begin,end)` — what `opus_packet_extensions_parse` reads from each padding (`padRefs`; nothing if the
+    padding is not a well-formed extension list), renumbered `frame + i - begin` and kept iff that lies
+    in `[0, end-begin)` (`gathered`).  If `all` is non-empty and in C16's `NoRepeat` class, a successful
+    output parses back to exactly the selected frames (as in `out_roundtrip`), AND the padding region
+    the parser reports, read by the extension parser of C16, yields exactly `all` stably sorted by frame
+    (`sortedFrom`: frame 0's extensions in gathering order, then frame 1's, …) — same count, IDs, frame
+    numbers, lengths and payload bytes. -/
+theorem out_roundtrip_ext_partial (s : Rp) (hs : Reachable s) (b e : Nat) (hb : b < e) (he : e ≤ s.nbFrames)
+    (exts : Array Ext) (hvx : AllValid exts (e - b))
+    (hpos : 0 < (exts ++ (gathered (s.pads.take e) 0 b e).toArray).size)
+    (hnr : NoRepeat (exts ++ (gathered (s.pads.take e) 0 b e).toArray) (e - b))
+    (maxlen : Int) (sd pad : Bool) (bs : Bytes) (h : outRangeImpl s b e maxlen sd pad exts = .ok bs)
+    (rest : Bytes) (hrest : sd = false → rest = []) :
+    ∃ r, parseImpl sd (bs ++ rest) = .ok r ∧
+      slices (bs ++ rest) r.payloadOffset r.sizes = selFrames s b e ∧ r.count = e - b ∧
+      r.toc / 4 = s.toc / 4 ∧ r.packetOffset = bs.length ∧
+      (bs.length : Int) ≤ maxlen ∧ (pad = true → (bs.length : Int) = maxlen) ∧
+      ∀ cap : Int, ((exts ++ (gathered (s.pads.take e) 0 b e).toArray).size : Int) ≤ cap →
+        ∃ refs, Ext.parse (((bs ++ rest).drop r.padOffset).take r.padLen)
+                  (((bs ++ rest).drop r.padOffset).take r.padLen).length cap ((e - b : Nat) : Int) = .ok refs ∧
+          refs.length = (exts ++ (gathered (s.pads.take e) 0 b e).toArray).size ∧
+          refs.map (ExtRef.toExt (((bs ++ rest).drop r.padOffset).take r.padLen)) =
+            (sortedFrom (exts ++ (gathered (s.pads.take e) 0 b e).toArray) (e - b) 0).map normExt := by
+  obtain ⟨p, k, hv, hbs, hfr, htoc, hpb, hval, hle, hpl⟩ :=
+    outRangeImpl_ext s (reachable_inv hs) (reachable_padsOk hs) b e hb he exts hvx hpos hnr maxlen sd pad bs h
+  obtain ⟨hparse, hsl⟩ := parse_serialize_frames sd p hv rest hrest
+  subst hbs
+  refine ⟨view sd p, hparse, by rw [hsl, hfr], ?_, htoc, rfl, hle, hpl, ?_⟩
+  · simp only [view]; rw [hfr]; exact (selFrames_ok s (reachable_inv hs) b e hb he).2
+  · intro cap hcap
+    rw [padding_of_serialize, hpb]
+    have hn48 : e - b ≤ 48 := by have := (reachable_inv hs).nb_le; omega
+    have hvs : ∀ x ∈ sortedFrom (exts ++ (gathered (s.pads.take e) 0 b e).toArray) (e - b) 0, ValidExt (e - b) x := by
+      intro x hx
+      obtain ⟨j, hj⟩ := List.mem_iff_getElem?.mp (mem_sortedFrom hx).1
+      exact hval j x (by rw [← Array.getElem?_toList]; exact hj)
+    have hsorted := frameSorted_sortedFrom (exts ++ (gathered (s.pads.take e) 0 b e).toArray) (e - b) (e - b) 0 0
+      (by omega) (Nat.le_refl _)
+    have hslen := sortedFrom_length _ (e - b) hval
+    have hne : sortedFrom (exts ++ (gathered (s.pads.take e) 0 b e).toArray) (e - b) 0 ≠ [] := by
+      intro h0; rw [h0, List.length_nil] at hslen; omega
+    obtain ⟨h1, h2⟩ := parse_ones_ser k _ hne (e - b) hn48 (Nat.sub_pos_of_lt hb) hvs hsorted cap (by rw [hslen]; exact hcap)
+    unfold extSer
+    exact ⟨_, h1, by rw [serRefs_length, hslen], h2⟩
+
+/-- Fix 374eedae (stored padding that is not an extension list): if every stored padding carries
+    nothing — its extension count is 0, or it is not a well-formed extension list so that
+    `opus_packet_extensions_parse` fails — the paddings are dropped and `out_range_impl` behaves exactly as in
+    the extension-free case: `BUFFER_TOO_SMALL` iff the minimal size exceeds `maxlen`, otherwise the
+    serialisation of the valid packet `outPacket` (so `out_roundtrip` / `out_size` hold verbatim; in
+    particular never `OPUS_INTERNAL_ERROR`). -/
+theorem out_malformed_padding_dropped (s : Rp) (hs : Reachable s) (b e : Nat) (hb : b < e) (he : e ≤ s.nbFrames)
+    (hnil : ∀ pn ∈ s.pads, padRefs pn.1 pn.2 = []) (maxlen : Int) (sd pad : Bool) :
+    outRangeImpl s b e maxlen sd pad #[] =
+      (if minSize sd ((selFrames s b e).map List.length) > maxlen then .err .bufferTooSmall
+       else .ok (serialize sd (outPacket s.toc (selFrames s b e) maxlen sd pad))) ∧
+    (minSize sd ((selFrames s b e).map List.length) ≤ maxlen →
+       Valid (outPacket s.toc (selFrames s b e) maxlen sd pad) ∧
+       (outPacket s.toc (selFrames s b e) maxlen sd pad).frames = selFrames s b e) :=
+  ⟨outRangeImpl_dropped s (reachable_padsOk hs) b e hb he hnil maxlen sd pad,
+   fun hfit => ⟨outPacket_valid _ _ (selFrames_ok s (reachable_inv hs) b e hb he).1 _ _ _ hfit, outPacket_frames _ _ _ _ _⟩⟩
+
 /-- The extension-free hypothesis is met by everything the library itself pads: zero padding (and no
     padding) has extension count 0 (`count_zeros` is C16's lemma), so packets produced by `out` with
     `pad` or by `opus_packet_pad` can be `cat`-ed / padded / unpadded again under the theorems above. -/
@@ -368,6 +443,60 @@ example : ∃ r, parseImpl false pkA = .ok r ∧
    count_nil 1 (by decide)⟩
 /-- the serialiser spec on the padded packet: pad_amount 4 → code 3, one length byte `3`, three zeros -/
 example : serialize false (outPacket 0x80 [[1, 2, 3]] 9 false true) = [0x83, 0x41, 3, 1, 2, 3, 0, 0, 0] := by
+  decide +kernel
+
+/-! #### extension carriage: hypotheses of `out_roundtrip_ext_partial` are satisfiable -/
+
+/-- (a) a caller-supplied extension for frame 0 on the 4-frame history above -/
+def exE : Array Ext := #[{ id := 5, frame := 0, data := [7], len := 1 }]
+
+private theorem exGathered (b e : Nat) : gathered (exState.pads.take e) 0 b e = [] :=
+  gathered_nil _ (fun pn h => padRefs_of_count_zero _ _ (exFree pn (List.mem_of_mem_take h))) 0 b e
+
+example : AllValid exE (4 - 0) ∧ 0 < (exE ++ (gathered (exState.pads.take 4) 0 0 4).toArray).size ∧
+    NoRepeat (exE ++ (gathered (exState.pads.take 4) 0 0 4).toArray) (4 - 0) := by
+  rw [exGathered]
+  exact ⟨allValid_of_all _ _ (by decide +kernel), by decide, noRepeat_last_empty _ _ (by decide +kernel)⟩
+
+/-- … the call succeeds with 14 bytes (frames as before, padding `0b 07` = ID 5, L=1, payload 07) and is
+    refused with 13. -/
+example : outRangeImpl exState 0 4 100 false false exE =
+      .ok [0x83, 0xc4, 0x02, 0x03, 0x02, 0x00, 0x01, 0x02, 0x03, 0x09, 0x09, 0x07, 0x0b, 0x07] ∧
+    outRangeImpl exState 0 4 13 false false exE = .err .bufferTooSmall := by
+  have hv : AllValid exE (4 - 0) := allValid_of_all _ _ (by decide +kernel)
+  have hpos : 0 < (exE ++ (gathered (exState.pads.take 4) 0 0 4).toArray).size := by rw [exGathered]; decide
+  have hnr : NoRepeat (exE ++ (gathered (exState.pads.take 4) 0 0 4).toArray) (4 - 0) := by
+    rw [exGathered]; exact noRepeat_last_empty _ _ (by decide +kernel)
+  have heq := fun ml => outRangeImpl_ext_eq exState (reachable_inv exReach) (reachable_padsOk exReach) 0 4 (by decide)
+    (by decide +kernel) exE hv hpos hnr ml false false
+  constructor
+  · show outRangeImpl exState (0 : Nat) (4 : Nat) 100 false false exE = _
+    rw [heq 100]
+    simp only [exGathered, selFrames, exFrames.1, exFrames.2.2]
+    decide +kernel
+  · show outRangeImpl exState (0 : Nat) (4 : Nat) 13 false false exE = _
+    rw [heq 13]
+    simp only [exGathered, selFrames, exFrames.1]
+    decide +kernel
+
+/-- (b) a stored packet whose padding is an extension list: `03 42 03 AA BB | 02 0B 5A` (two 1-byte
+    frames; padding = "next frame", ID 5 with payload 5A, i.e. an extension of frame 1), split with
+    out_range(1,2): the extension is gathered and renumbered to frame 0. -/
+def pkX : Bytes := [0x03, 0x42, 0x03, 0xAA, 0xBB, 0x02, 0x0B, 0x5A]
+def exStateX : Rp := run Rp.empty [.cat pkX]
+
+private theorem exReachX : Reachable exStateX :=
+  ⟨[.cat pkX], by intro bs h; simp at h; subst h; decide, rfl⟩
+
+private theorem exPadsX : exStateX.pads = [(serBytes 0 [{ id := 5, frame := 1, data := [0x5A], len := 1 }], 2), ([], 0)] ∧
+    exStateX.frames = [[0xAA], [0xBB]] := by decide +kernel
+
+example : gathered (exStateX.pads.take 2) 0 1 2 = [{ id := 5, frame := 0, data := [0x5A], len := 1 }] ∧
+    gathered (exStateX.pads.take 1) 0 0 1 = [] := by
+  have h := padRefs_ser [{ id := 5, frame := 1, data := [0x5A], len := 1 }] 2 (by decide)
+    (by intro e he; simp at he; subst he; exact (validExt_iff _ _).mpr (by decide)) ⟨by decide, trivial⟩ (by decide)
+  rw [exPadsX.1]
+  simp only [List.take, gathered, h]
   decide +kernel
 
 end OpusProps.C07
